@@ -186,7 +186,7 @@ func (C41) Execute(t *testing.T, sc *core.Scenario) *core.Result {
 			}
 			pos := sos.LogLen()
 			others := writers()
-			st, err := nbs.NewLocalJournalingStoreWithOptions(ctx, constants.FormatDefaultString, dir, nbs.NewUnlimitedMemQuotaProvider(), false, func(error) {}, opts)
+			st, err := nbs.NewLocalJournalingStoreWithOptions(ctx, constants.FormatDefaultString, dir, nbs.NewUnlimitedMemQuotaProvider(), nbs.DsimMmapArchiveIndexes, func(error) {}, opts)
 			if err == nil {
 				_, err = st.Root(ctx) // force the lazy load
 				if err != nil {
